@@ -105,9 +105,11 @@ class Loader:
     def _imp(self, n, g=None, l=None, fromlist=(), level=0):
         if level:
             raise ImportError('relative import in lentil source')
-        if n in self.shims:
-            return self.shims[n]
         top = n.split('.')[0]
+        if n in self.shims:
+            if '.' in n and not fromlist and top in self.shims:
+                return self.shims[top]          # `import a.b` binds the top-level package
+            return self.shims[n]
         if top in self.shims and n not in self.shims:
             # e.g. "import scipy.ndimage" -> returns top-level shim; "from scipy import ndimage" handled by attr
             m = self.shims[top]
